@@ -58,7 +58,7 @@ try:
                 rp = m.group(1).replace("/verif/", verif + "/")
                 try:
                     d = json.load(open(rp))
-                    print("    replay:", json.dumps({k: d[k] for k in d if k not in ("tool_output",)}, ensure_ascii=False)[:700])
+                    print("    replay:", json.dumps({k: (d[k] if k != "tool_output" else str(d[k])[-400:]) for k in d}, ensure_ascii=False)[:900])
                 except Exception as e:
                     print("    (replay unreadable)", e)
         if not viol:
